@@ -360,7 +360,19 @@ pub fn gen_valid_entry(rng: &mut Rng, cfg: &Cfg, hostile_text: bool, allow_big: 
     }
     let use_dims = rng.below(3) == 0;
     // pool of per-metric dimension keys, disjoint from every other name
-    let dim_keys: Vec<String> = (0..3).map(|_| fresh(rng, &mut used)).collect();
+    // (half of the time from a fixed pool, so that the entries of one sequence share per-metric dimension sets)
+    let shared_pool = rng.bool() && ["PDim0", "PDim1", "PDim2"].iter().all(|k| !used.contains(*k));
+    let dim_keys: Vec<String> = if shared_pool {
+        (0..3)
+            .map(|i| {
+                let k = format!("PDim{i}");
+                used.insert(k.clone());
+                k
+            })
+            .collect()
+    } else {
+        (0..3).map(|_| fresh(rng, &mut used)).collect()
+    };
     let mut values: Vec<POp> = vec![];
     for d in &declared {
         values.push(POp::Value(d.clone(), PVal::Str(gen_string_value(rng, hostile_text, false))));
@@ -371,7 +383,8 @@ pub fn gen_valid_entry(rng: &mut Rng, cfg: &Cfg, hostile_text: bool, allow_big: 
     }
     // 1-4 dimension sets of 1-3 keys; each key has a pool of 1-2 values, so that sets overlap, contain
     // each other and share (key, value) pairs
-    let dim_values: Vec<Vec<String>> = dim_keys.iter().map(|_| (0..1 + rng.below(2)).map(|_| gen_text(rng, hostile_text)).collect()).collect();
+    let dim_values: Vec<Vec<String>> =
+        dim_keys.iter().map(|_| (0..1 + rng.below(2)).map(|_| if shared_pool { format!("pv{}", rng.below(2)) } else { gen_text(rng, hostile_text) }).collect()).collect();
     let dim_sets_for_metrics: Vec<Vec<(String, String)>> = (0..1 + rng.below(4))
         .map(|_| {
             let mut ks: Vec<usize> = vec![];
